@@ -42,7 +42,7 @@ CLAIMS = {
         "bytes the model emits read back as the value and every signed disp8/disp32 is recovered), C11.swap_same_address / nobase_scale*_same_address "
         "(the NASM rewritings keep the address for every register valuation). Memory forms also store a small negative immediate. Tie: the family on the C implementation (thorough: all 17x16x4x13x2 "
         "shapes for mov, lea, paddb, vaddpd) incl. [base+rsp], [1*rsp+disp] shapes, option bytes NASM/STRICT and both mixed SIB settings, decoded and "
-        "compared; objdump cross-check of the decoder on every encoding.",
+        "compared; decimal displacements also written with leading zeros ([rbx+010] is rbx+10); objdump cross-check of the decoder on every encoding.",
    note="Sweep by evaluation (native_decide axiom), see C01. RIP-relative operands are not in the documented syntax and not in the family.",
    technique="Lean 4 reference decoder with address-equivalence relation; finite-domain theorem (native_decide) + kernel-checked field lemmas for all values; differential run with decoding oracle",
    design="8/C02"),
@@ -168,7 +168,7 @@ CLAIMS = {
         "reject_unknown_register / strToReg_unknown, reject_empty_operand, reject_unclosed_bracket, reject_bad_scale, reject_glued_scale "
         "(a scale is ONE digit standing alone: products, multi-digit and hexadecimal numbers never pass), reject_stack_pointer_index. Tie + oracle: generated malformed families (412 misspelt mnemonics, 128 register lines, 46k "
         "mnemonic x kind tuples, operand/memory syntax, 600 invalid-scale spellings, bytes 0x7f..0xff at every position) alone under option bytes and "
-        "first/middle/last in programs in plain/fitting/counting mode.",
+        "first/middle/last in programs in plain/fitting/counting mode; unclosed brackets that balance over the line (mov [rax, rbx]), a second opening bracket ([[rbx]: C10.reject_second_bracket, fix 5a09eff).",
    note="'Operand kinds' are the library's own classes (r covers general and MMX registers): a general register where an MMX register "
         "is required is not distinguished at this level (it is an encoding question, C04). The per-family lemmas are about AL.Impl "
         "functions and are lifted to whole lines by the T2 correspondence, not by a single end-to-end theorem over rendered syntax.",
@@ -267,7 +267,7 @@ CLAIMS = {
         "settings) give, after asm_set_offset(k), the same return value, offset, count and code bytes; a failed call leaves offset and "
         "configuration unchanged; a counting call restores mode and chunk size; the global index tables are a function of the constant "
         "tables. Tie + oracle: every history of up to 2 (thorough 3) calls from a 24-call alphabet and random longer ones vs a fresh "
-        "instance over a different fill.",
+        "instance over a different fill; the twin's calls are also run alone in a NEW process (state kept outside the instances, e.g. errno or a static, hits an in-process twin alike).",
    note="Instances on caller buffers of equal length (internal instances of different current size are covered by C08). The model has "
         "no shared mutable state besides the index tables; that the C code has none either is the T5 inventory (nm).",
    technique="Lean 4 proof (congruence of the run under configuration-equivalence, induction over histories) + differential correspondence",
